@@ -420,6 +420,13 @@ def run(ctx):
         {"name": "2D long tubes (fluid rise ~ film drop), steady", "ndim": 2, "times": [0.0, 1.0], "panels": [[2], [1, 3]],
          "paths": [[0, 1]], "H": 8000.0},
     ]
+    # a long plateau of constant flux (the lagged conductivity has settled, the wall no longer moves on the first
+    # Picard pass) during which the prescribed inlet temperature and mass flow change: the fluid must still be
+    # re-solved for the inputs of THAT time
+    specs += [
+        {"name": "1D steady plateau, inlet steps at t=5 and t=7", "ndim": 1, "times": [0.0, 1.0, 2.0, 3.0, 4.0, 5.0, 6.0, 7.0, 8.0],
+         "panels": [[2], [1]], "paths": [[0, 1]], "inlet": [800.0, 800.0, 800.0, 800.0, 800.0, 820.0, 820.0, 790.0, 790.0]},
+    ]
     if not ctx.quick():
         specs += [
             {"name": "3D two panels steady", "ndim": 3, "times": [0.0, 1.0], "panels": [[3, 2], [2]], "paths": [[0, 1]], "nr": 6},
